@@ -77,6 +77,7 @@ var propScenario = map[string][]scenario{
 	"C04": {{"c04_bucket_program_test.go", ".", "Bucket.MoveBucket/DeleteBucket (regression scenarios of D4, D5a, D5b)"}, modelPrograms},
 	"C05": {{"c05_cursor_shape_test.go", ".", "Cursor.first/last/next/prevElem/search* over trees with leaves emptied in the same transaction (regression scenario of D2)"}, modelPrograms},
 	"C07": {{"c04_bucket_program_test.go", ".", "Bucket.DeleteBucket/free (regression scenario of D4)"}, modelPrograms},
+	"C08": {{"c08_failed_sync_test.go", ".", "Tx.Commit / Tx.rollback after a failed final fdatasync (known finding D3)"}},
 	"C10": {modelPrograms},
 	"C14": {modelPrograms},
 	"C15": {modelPrograms},
@@ -175,11 +176,47 @@ func runBounded(e *Engine, prop, tier string, seed int, force bool) ([]map[strin
 		}
 		if bad {
 			rec["output"] = firstLines(out, 80)
-			rec["source"] = string(data)
-			rec["pkg"] = sc.pkgDir
-			failed = append(failed, rec)
+			// one failure record per failing test of the template (a known finding names one test, so a
+			// different failing test of the same template is still reported)
+			var tests []string
+			for _, l := range strings.Split(out, "\n") {
+				l = strings.TrimSpace(l)
+				if strings.HasPrefix(l, "--- FAIL: ") {
+					tests = append(tests, strings.Fields(strings.TrimPrefix(l, "--- FAIL: "))[0])
+				}
+			}
+			if len(tests) == 0 {
+				tests = []string{"(panic or timeout)"}
+			}
+			rec["failed_tests"] = tests
+			for _, tn := range tests {
+				failed = append(failed, map[string]interface{}{"contract": sc.file + ":" + tn, "output": failingPart(out, tn), "source": string(data), "pkg": sc.pkgDir})
+			}
 		}
 		recs = append(recs, rec)
 	}
 	return recs, failed
+}
+
+// failingPart extracts the output lines of one failing test (go test -v streams a test's messages between its
+// "=== RUN" line and its "--- FAIL" line).
+func failingPart(out, test string) string {
+	var keep []string
+	on := false
+	for _, l := range strings.Split(out, "\n") {
+		t := strings.TrimSpace(l)
+		if strings.HasPrefix(t, "=== RUN") && strings.HasSuffix(t, test) {
+			on = true
+		}
+		if on {
+			keep = append(keep, l)
+		}
+		if strings.HasPrefix(t, "--- FAIL: "+test) {
+			on = false
+		}
+	}
+	if len(keep) == 0 {
+		return firstLines(out, 80)
+	}
+	return firstLines(strings.Join(keep, "\n"), 80)
 }
